@@ -297,20 +297,28 @@ class BasisSHO(BasisSet):
                 mat = self.dvr_v.T @ mat @ self.dvr_v
 
         elif op_symbol == "x p":
+            # x = y + x0, y p = i/2 (b^\dagger + b)(b^\dagger - b)
             mat = -1.0j/2 *(self.op_mat(r"b b")
                     - self.op_mat(r"b^\dagger b^\dagger")
-                    + self.op_mat(r"b b^\dagger")
-                    - self.op_mat(r"b^\dagger b"))
+                    - self.op_mat(r"b b^\dagger")
+                    + self.op_mat(r"b^\dagger b"))
+            mat = mat + self.x0 * 1j * np.sqrt(self.omega / 2) * (self.op_mat(r"b^\dagger") - self.op_mat("b"))
+            if self.dvr:
+                mat = self.dvr_v.T @ mat @ self.dvr_v
 
         elif op_symbol == "x dx":
             # x dx is real, while x p is imaginary
             mat = (self.op_mat("x p") / -1.0j).real
 
         elif op_symbol == "p x":
+            # x = y + x0, p y = i/2 (b^\dagger - b)(b^\dagger + b)
             mat = -1.0j/2 *(self.op_mat(r"b b")
                     - self.op_mat(r"b^\dagger b^\dagger")
-                    - self.op_mat(r"b b^\dagger")
-                    + self.op_mat(r"b^\dagger b"))
+                    + self.op_mat(r"b b^\dagger")
+                    - self.op_mat(r"b^\dagger b"))
+            mat = mat + self.x0 * 1j * np.sqrt(self.omega / 2) * (self.op_mat(r"b^\dagger") - self.op_mat("b"))
+            if self.dvr:
+                mat = self.dvr_v.T @ mat @ self.dvr_v
 
         elif op_symbol == "dx x":
             mat = (self.op_mat("p x") / -1.0j).real
